@@ -569,6 +569,44 @@ func c13(run *ev.Run, tier string) {
 		}
 	}
 
+	// part 2e: an override block that spells out an EMPTY value sets nothing, also
+	// for the settings held behind a pointer (signature key ids)
+	for _, f := range []string{"deb", "rpm", "apk"} {
+		for _, empty := range []string{"\"\""} { // (references inside an override's key_id are not expanded: no second spelling)
+			doc := "name: ovr\narch: amd64\nversion: 1.0.0\nmaintainer: \"O <o@example.com>\"\ndescription: d\n" +
+				f + ":\n  signature:\n    key_file: /nonexistent-verif/key\n    key_id: bc8acdd415bd80b3\n" +
+				"overrides:\n  " + f + ":\n    " + f + ":\n      signature:\n        key_id: " + empty + "\n"
+			cfg, err := parseYAML(doc, nil)
+			run.Case("override-spells-out-empty-key-id|"+f+"|"+empty, true)
+			if err != nil {
+				run.Violate("C13/parse-error", map[string]any{"doc": doc, "error": err.Error()})
+				continue
+			}
+			info, err := cfg.Get(f)
+			if err != nil {
+				run.Violate("C13/"+f+"/get-error", map[string]any{"error": err.Error()})
+				continue
+			}
+			var got *string
+			switch f {
+			case "deb":
+				got = info.Deb.Signature.KeyID
+			case "rpm":
+				got = info.RPM.Signature.KeyID
+			default:
+				got = info.APK.Signature.KeyID
+			}
+			atomic.AddInt64(&leafCmp, 1)
+			if got == nil || *got != "bc8acdd415bd80b3" {
+				v := "<nil>"
+				if got != nil {
+					v = *got
+				}
+				run.Violate("C13/"+f+"/empty-override-value-replaces-base/signature.key_id", map[string]any{"override_value": empty, "got": v, "want": "bc8acdd415bd80b3"})
+			}
+		}
+	}
+
 	// part 2b: the command line tool uses the same effective settings, also when
 	// the packager is inferred from the target's extension
 	if bin := nfpmBin(run); bin != "" {
@@ -683,6 +721,24 @@ func c13(run *ev.Run, tier string) {
 		if err := cfg.Validate(); err == nil {
 			run.Violate("C13/validate-accepts-override-for-unregistered-format", map[string]any{"key": key})
 		}
+	}
+	// a configuration assembled in Go may hold an empty (nil) block: the key is
+	// validated all the same
+	for _, key := range []string{"nosuchformat", "rpmm", "DEB"} {
+		c := baseCfg(false)
+		c.Info.Contents = files.Contents{{Source: payload, Destination: "/opt/ovr/p.txt"}}
+		c.Overrides = map[string]*nfpm.Overridables{key: nil}
+		run.Case("validate-nil-block|"+key, true)
+		func() {
+			defer func() {
+				if r := recover(); r != nil {
+					run.Violate("C13/validate-panics-on-empty-override-block", map[string]any{"key": key, "panic": fmt.Sprint(r)})
+				}
+			}()
+			if err := c.Validate(); err == nil {
+				run.Violate("C13/validate-accepts-override-for-unregistered-format", map[string]any{"key": key, "block": "nil"})
+			}
+		}()
 	}
 	for _, key := range formats {
 		c := baseCfg(false)
